@@ -549,12 +549,12 @@ Proof.
   - reflexivity.
   - reflexivity.
   - intros n s. reflexivity.
-  - intros h args IH. cbn [echo echo_text v_echo_raw repaired].
+  - intros h args IH. cbn [echo echo_text v_echo_raw v_echo_bang_glued repaired].
     rewrite (o_sep_pure ast (echo repaired) echo_text " " args IH).
     destruct h; unfold o_concat, o_seq, o_str; cbn [fst snd]; rewrite ?app_empty_r; reflexivity.
-  - intros t n IH. cbn [echo echo_text v_echo_raw repaired]. rewrite IH.
+  - intros t n IH. cbn [echo echo_text v_echo_raw v_echo_bang_glued repaired]. rewrite IH.
     unfold o_concat, o_seq, o_str; cbn [fst snd]. rewrite ?app_empty_r, ?append_assoc. reflexivity.
-  - intros bs body IHb IH. cbn [echo echo_text v_echo_raw repaired]. rewrite IH.
+  - intros bs body IHb IH. cbn [echo echo_text v_echo_raw v_echo_bang_glued repaired]. rewrite IH.
     match goal with |- context [o_sep " " (map ?f bs)] =>
       rewrite (o_sep_pure (string * ast) f (fun b => "(" +++ P (fst b) +++ " " +++ echo_text (snd b) +++ ")") " " bs) end.
     + unfold o_concat, o_seq, o_str; cbn [fst snd]. rewrite ?app_empty_r, ?append_assoc. reflexivity.
